@@ -38,7 +38,7 @@ CHECKS = {
     'C06': (
         'exploration',
         'property-based testing: exhaustive enumeration of all orders and tick gaps of wake-up events versus pause/play requests, plus Hypothesis; liveness checked as quiescence; twin-run reference for exactly-once delivery',
-        'After all enabling events were delivered, the process was played and the loop is empty, the process must not be WAITING; the continuation must have run exactly once with the first resume value (compared with the twin run); no exception may reach the loop handler. The completion phase never re-delivers a wake-up, so a lost one cannot be masked. Workchains awaiting futures and launched children are included, also with failing or killed items around pause/play.',
+        'After all enabling events were delivered, the process was played and the loop is empty, the process must not be WAITING; the continuation must have run exactly once with the first resume value (compared with the twin run; the enumerated values include None, which is a value and not the absence of one); no exception may reach the loop handler. The completion phase never re-delivers a wake-up, so a lost one cannot be masked. Workchains awaiting futures and launched children are included, also with failing or killed items around pause/play.',
         'Trusts the StepLoop (FIFO execution of asyncio ready handles, external requests injected between two callbacks; OS-thread races out of scope) and the public observers. Lifecycle hooks do not raise (C03).',
         'DESIGN.md section 3 C06',
     ),
@@ -52,8 +52,8 @@ CHECKS = {
     'C13': (
         'exploration',
         'property-based testing against a reference interpreter of the step commands, with a pickled-checkpoint restore at every state entry (metamorphic: restored continuation = suffix of the uninterrupted run)',
-        'Generated chains of <=6 steps over all commands (Continue with positional and keyword arguments, Wait with and without resume value, plain value, Stop, UnsuccessfulResult, Kill(msg), raise); the executed (step, args, kwargs) sequence and the final state/result/successful/killed_msg must equal the reference interpreter, for the uninterrupted run and for a continuation from every checkpoint.',
-        'Arguments are plain picklable values; checkpoints are taken at state entries and each restore uses a fresh deserialisation in a fresh event loop.',
+        'Generated chains of <=6 steps over all commands (Continue with positional and keyword arguments, Wait with and without resume value, plain value, Stop, UnsuccessfulResult, Kill(msg), raise); the executed (step, args, kwargs) sequence and the final state/result/successful/killed_msg must equal the reference interpreter, for the uninterrupted run and for a continuation from every checkpoint: those taken at every state entry and those taken from inside the 7 lifecycle hooks that run between the return of a step and the next state (there the step that just returned may run once more, everything after it is exact).',
+        'Arguments are plain picklable values; each restore uses a fresh deserialisation in a fresh event loop; steps are deterministic functions of their arguments.',
         'DESIGN.md section 3 C13',
     ),
     'C09': (
@@ -66,7 +66,7 @@ CHECKS = {
     'C10': (
         'exploration',
         'property-based testing: exhaustive enumeration of completion orders / awaitable kinds / registration ways / outcome mixes for small n plus Hypothesis; barrier predicate sampled at the entry of the next outline step',
-        'At the entry of the step after the barrier every awaited future must be done and ctx[key] must equal its result (child: its outputs; later assignment wins); with a failing or killed item the workchain must end EXCEPTED with the first such error (KilledError for a killed child) and the next step must never run; nothing may reach the loop exception handler.',
+        'At the entry of the step after the barrier every awaited future must be done and ctx[key] must equal its result (child: its outputs; later assignment wins); with a failing or killed item the workchain must end EXCEPTED with the first such error (KilledError for a killed child) and the next step must never run; nothing may reach the loop exception handler. The registering step is also placed as the last step of if_/elif_/else_/while_ bodies (and an if_ inside a while_).',
         'Completions are injected between two event-loop callbacks on the harness-owned loop; children are real launched processes gated by the harness.',
         'DESIGN.md section 3 C10',
     ),
@@ -80,56 +80,56 @@ CHECKS = {
     'C08': (
         'exploration',
         'property-based testing: metamorphic oracle (restored continuation chains = uninterrupted run), exhaustive over all single and double crash points of a catalogue plus Hypothesis-generated looping programs/outlines with up to 3 chained restores',
-        'The reference run is checkpointed at every state entry; for each chain of <=3 crash points the instance is abandoned, the checkpoint deserialised (pickle / deep copy / YAML) into a fresh event loop and world, continued with the remaining wake-up values, checkpointed again and so on; the concatenated step+predicate trace with arguments, outputs, ctx, final state and result must equal the reference: nothing re-executed, nothing skipped.',
+        'The reference run is checkpointed at every state entry and at the entry of every step function (a crash inside a step, before it had any effect); programs share one mutable context value under two keys and one family uses a non-identity input/output codec; for each chain of <=3 crash points the instance is abandoned, the checkpoint deserialised (pickle / deep copy / YAML) into a fresh event loop and world, continued with the remaining wake-up values, checkpointed again and so on; the concatenated step+predicate trace with arguments, outputs, ctx, final state and result must equal the reference: nothing re-executed, nothing skipped.',
         'Steps depend only on persisted state (inputs, ctx, continuation arguments); every restore uses a fresh deserialisation; workchains here register no live awaitables.',
         'DESIGN.md section 3 C08',
     ),
     'C11': (
         'exploration',
         'model-based property testing: bounded-exhaustive enumeration of a two-level spec family (~10^5 spec/input pairs) plus Hypothesis-generated spec trees and perturbed inputs, compared with an independent reference model of acceptance and of the parsed form',
-        'For every (spec, inputs) pair the constructor must raise exactly when the reference model rejects; on acceptance `inputs` (as plain nested dict) must equal the model parse (defaults, callable defaults evaluated, populate_defaults=False namespaces left out, {} for namespaces with ports), every declared namespace level must refuse item assignment, raw_inputs must equal the given dict and the caller dict must be deep-equal to its pre-call copy with identical leaf objects.',
-        'Plain dict inputs, never the empty tuple; values for a namespace are dicts, ints or None; defaults valid by construction; validators total; no namespace-level defaults.',
+        'For every (spec, inputs) pair the constructor must raise exactly when the reference model rejects; on acceptance `inputs` (as plain nested dict) must equal the model parse (defaults, callable defaults evaluated, populate_defaults=False namespaces left out, {} for namespaces with ports), every declared namespace level must refuse item assignment, raw_inputs must equal the given dict and the caller dict must be deep-equal to its pre-call copy with identical leaf objects. The same content and read-only levels are required of the process recreated from a Bundle; a quarter of the generated specs are adjusted after declaration through the port setters (default, valid_type, validator), the model judging the adjusted tree.',
+        'Plain dict inputs, never the empty tuple; values for a namespace are dicts, ints or None; declared defaults valid by construction (setter-assigned ones need not be); validators total; no namespace-level defaults.',
         'DESIGN.md section 3 C11',
     ),
     'C12': (
         'exploration',
         'model-based property testing: generated output specs x emission sequences, the reference model is consulted after every out() and at the finish',
-        'After each out(path, value): accepted by the model => no exception, outputs equal the model outputs, listeners saw (path, value); rejected => raises (ValueError for value/type/validator/undeclared-port rejections) and outputs unchanged. At the end: FINISHED, result() is the returned value, future().result() equals outputs, is_successful/successful() equal the model validation of the collected outputs.',
-        'A path is never both leaf and namespace within a sequence; dynamic namespaces carry no namespace validator; nothing is emitted onto a declared namespace name.',
+        'After each out(path, value): accepted by the model => no exception, outputs equal the model outputs, listeners saw (path, value); rejected => raises (ValueError for value/type/validator/undeclared-port rejections) and outputs unchanged. At the end: FINISHED, result() is the returned value, future().result() equals outputs, is_successful/successful() equal the model validation of the collected outputs. Whole mappings are emitted onto declared namespaces (with and without explicit ports), and a quarter of the cases use a spec class whose port namespaces have another namespace separator (__ or /).',
+        'A path is never both leaf and namespace within a sequence; dynamic namespaces carry no namespace validator; a mapping emitted onto a declared namespace is the only emission into that subtree.',
         'DESIGN.md section 3 C12',
     ),
     'C14': (
         'exploration',
         'stateful / model-based property testing: generated operation histories applied to both persisters and to a dict model (differential + reference model)',
-        'Histories of up to 40 save/load/list/delete/delete-pid/progress/run-loaded operations over 3 live processes, a never-saved pid and 3 tags, for int, UUID and string pids: every call result (or exception) of each persister must equal the dict model that keeps the harness-made deep copy from save time; loads must be structurally equal to that copy even after the live process progressed or a loaded copy was run to completion; listings compared as sets; the two persisters must agree. All pairs of operations after a fixed prefix are enumerated.',
-        'pids/tags of one kind per history, separator-free strings; PicklePersister works in a private temporary directory.',
+        'Histories of up to 40 save/load/list/delete/delete-pid/progress/run-loaded/poison/heal operations (poison makes a live process unserialisable so that its saves are refused; a refused save is not a save) over 3 live processes, a never-saved pid and 3 tags, for int, UUID and string pids: every call result (or exception) of each persister must equal the dict model that keeps the harness-made deep copy from save time; loads must be structurally equal to that copy even after the live process progressed or a loaded copy was run to completion; listings compared as sets; the two persisters must agree. All pairs of operations after a fixed prefix are enumerated.',
+        'pids/tags of one kind per history, separator-free strings; PicklePersister works in a private temporary directory, optionally a sub-directory whose name contains glob metacharacters ([ ] * ?) next to decoy directories a pattern reading of the name would match.',
         'DESIGN.md section 3 C14',
     ),
     'C15': (
         'exploration',
         'model-based property testing: enumerated rule sets over a prefix-colliding source tree plus Hypothesis-generated trees/rules/options, compared with an independent rule-selection model; metamorphic independence test by mutating both sides',
-        'The destination port tree (names, kinds and every port attribute) after expose_inputs / expose_outputs / absorb must equal the model: exactly the selected ports under the target namespace, source namespace properties overridden by namespace options, non-colliding destination ports untouched, include+exclude and unsupported options rejected with ValueError; afterwards every settable attribute of every port on one side is changed and ports are added/removed, and the other side must not change.',
+        'The destination port tree (names, kinds and every port attribute) after expose_inputs / expose_outputs / absorb must equal the model: exactly the selected ports under the target namespace, source namespace properties overridden by namespace options, non-colliding destination ports untouched, include+exclude and unsupported options rejected with ValueError; afterwards every settable attribute of every port on one side is changed and ports are added/removed, container-valued defaults are changed in place, and the other side must not change. A third of the generated cases and an enumerated family use spec classes with another namespace separator (__ or /).',
         'No rule is an ancestor of another in the same set; colliding destination ports are replaced.',
         'DESIGN.md section 3 C15',
     ),
     'C19': (
         'exploration',
         'property-based testing: generated class shapes / member kinds / loader configurations with a round-trip oracle (members restored, save(recreated) = save(original)), a copy-at-save metamorphic test and loader-use counters',
-        'Generated inheritance chains (<=4 levels, sibling branch) of Savable classes declared with @auto_persist; members over plain nested values, bound methods, nested Savables (depth 3) and SavableFutures in all four states; default / global custom / per-save custom loaders (also with a different loader installed globally), with and without a loader in the load context. Checked: declaration sets per class (no leakage), saved keys, every declared member restored by kind, deep mutation of the original after save() leaves the saved state untouched, custom loader recorded at save is the one resolving the class at load, tampered identifiers raise ValueError.',
-        'Only the @auto_persist decorator declares members; custom loaders fall back to the default loader for foreign identifiers; futures are recreated on the loop given in the load context.',
+        'Generated inheritance chains (<=4 levels, sibling branch) of Savable classes declared with @auto_persist; members over plain nested values, bound methods, nested Savables (depth 3) and SavableFutures in all four states; default / global custom / per-save custom loaders (also with a different loader installed globally), with and without a loader in the load context. Checked: declaration sets per class (no leakage), saved keys, every declared member restored by kind, deep mutation of the original after save() leaves the saved state untouched, custom loader recorded at save is the one resolving the class at load, tampered identifiers raise ValueError. A third of the cases first save and load another object of the family (saved with a different loader configuration) through a caller-owned load context that is then reused; a quarter declare the members of one class in its persist() hook instead of the decorator.',
+        'Members are declared by the @auto_persist decorator, or by the persist() hook of a class whose ancestors declare nothing; custom loaders fall back to the default loader for foreign identifiers; futures are recreated on the loop given in the load context.',
         'DESIGN.md section 3 C19',
     ),
     'C20': (
         'exploration',
         'property-based testing with an innermost-outcome model: exhaustive enumeration of chain depth x terminal outcome x completion order x callback draining for three adapters, plus operation sequences on CancellableAction',
-        'For unwrap_kiwi_future, plum_to_kiwi_future+unwrap and Process._schedule_rpc every chain of depth <=3 (quick) / <=4 and sampled 5 (thorough) of futures resolving to futures is completed in every order: the adapter future must stay pending until all levels are connected and then carry exactly the innermost value object, exception object or cancellation. create_task must deliver the coroutine result/exception once. create_task and LoopCommunicator deliveries made from a real second thread (joined before looking) must wake the loop. CancellableAction: function called at most once with the given arguments, outcome readable on the action, second run and run after cancel refused.',
+        'For unwrap_kiwi_future, plum_to_kiwi_future+unwrap and Process._schedule_rpc every chain of depth <=3 (quick) / <=4 and sampled 5 (thorough) of futures resolving to futures is completed in every order: the adapter future must stay pending until all levels are connected and then carry exactly the innermost value object, exception object or cancellation. create_task must deliver the coroutine result/exception once, also when that exception is a concurrent.futures CancelledError / InvalidStateError instance. create_task, Process._schedule_rpc and LoopCommunicator deliveries made from a real second thread (joined before looking) must wake the loop. CancellableAction: function called at most once with the given arguments, outcome readable on the action, second run and run after cancel refused.',
         'Thread hand-offs are modelled as loop callbacks at generated positions; handler errors of _schedule_rpc are compared through __cause__.',
         'DESIGN.md section 3 C20',
     ),
     'C16': (
         'exploration',
         'property-based testing: differential twin-run oracle (remotely controlled process vs directly controlled twin at quiescent delivery points), handler-return-value comparison for in-step deliveries, broadcast-sequence invariant, injected broadcast faults',
-        'An in-process kiwipy LocalCommunicator (bare, or wrapped in LoopCommunicator) carries RPC pause/play/kill/status sent by RemoteProcessThreadController or RemoteProcessController and broadcast pause_all/play_all/kill_all. All sequences of <=2 (quick) / <=3 (thorough) messages at quiescent points are enumerated for 5 catalogue programs: the deduplicated observable history (state, paused, status, outputs), the final outcome and every unwrapped reply must equal those of a twin that receives the equivalent direct call. In-step deliveries compare the reply with the recorded return value of the very pause/play/kill call. The state_changed.<from>.<to> broadcasts recorded by an independent subscriber must match the entered states once each, in order, sent by the pid; each of the first 6 broadcasts is made to fail with each tolerated exception and must leave the run unchanged; terminated processes must be unroutable.',
+        'An in-process kiwipy LocalCommunicator (bare, or wrapped in LoopCommunicator) carries RPC pause/play/kill/status sent by RemoteProcessThreadController or RemoteProcessController and broadcast pause_all/play_all/kill_all. All sequences of <=2 (quick) / <=3 (thorough) messages at quiescent points are enumerated for 5 catalogue programs: the deduplicated observable history (state, paused, status, outputs), the final outcome and every unwrapped reply must equal those of a twin that receives the equivalent direct call. In-step deliveries compare the reply with the recorded return value of the very pause/play/kill call. The state_changed.<from>.<to> broadcasts recorded by an independent subscriber must match the entered states once each, in order, sent by the pid; each of the first 6 broadcasts is made to fail with each tolerated exception and must leave the run unchanged; either subscription of the process (RPC or broadcast) is made to time out and the other channel must keep working like the direct call; the process classes override get_status_info, so a status reply must carry the subclass entries; terminated processes must be unroutable.',
         'LocalCommunicator stands in for RabbitMQ (synchronous delivery; cross-thread hand-offs become loop callbacks at harness-chosen positions). Error replies are compared through __cause__. Messages sent after termination are unroutable while the twin call is a no-op.',
         'DESIGN.md section 3 C16',
     ),
